@@ -109,7 +109,7 @@ def run_property(pid, tier='quick', seed=0, only=None, jobs=None):
     ids = [o.id for o in obs]
     assert len(ids) == len(set(ids)), 'duplicate obligation ids'
     known = load_known(pid)
-    budget = getattr(mod, 'WALL_BUDGET', {}).get(tier, 600 if tier == 'quick' else 1500)
+    budget = getattr(mod, 'WALL_BUDGET', {}).get(tier, 600 if tier == "quick" else 1200)
     deadline = t_start + budget
     jobs = jobs or int(os.environ.get('VERIF_JOBS', os.cpu_count() or 4))
 
